@@ -708,10 +708,10 @@ func (env *specEnv) call(t *ast.CallExpr) SVal {
 			env.e.pendingExt = append(env.e.pendingExt, extent{p.R, p.O, c.Add(p.O, n)})
 			return SVal{V: Scalar{T: c.And(c.Sle(c.Const(64, 0), n), c.Slt(n, c.Const(64, 1<<40)), c.Ult(p.O, c.Const(64, 1<<47)))}, T: boolT}
 		}
-		end := c.Add(p.O, n)
 		var alts []*Term
 		for _, x := range env.ext {
-			alts = append(alts, c.And(c.Eq(p.R, x.R), c.Ule(x.Lo, p.O), c.Ule(end, x.Hi), c.Ule(p.O, end)))
+			off, size := c.Sub(p.O, x.Lo), c.Sub(x.Hi, x.Lo)
+			alts = append(alts, c.And(c.Eq(p.R, x.R), c.Ule(off, size), c.Ule(n, c.Sub(size, off))))
 		}
 		alts = append(alts, c.Eq(n, c.Const(64, 0)))
 		return SVal{V: Scalar{T: c.And(c.Sle(c.Const(64, 0), n), c.Or(alts...))}, T: boolT}
